@@ -36,6 +36,18 @@ OPTXT = {ast.Eq: "==", ast.NotEq: "!=", ast.Lt: "<", ast.LtE: "<=", ast.Gt: ">",
          ast.RShift: ">>", ast.LShift: "<<", ast.BitAnd: "&", ast.BitOr: "|", ast.Pow: "**"}
 
 
+OPS = "syntax"
+_P = [("idA", "idB"), ("M", "N"), ("X_msg", "Y_msg"), ("p", "q"), ("inbound_message", "outbound_message"),
+      ("my_blinding", "my_unblinding"), ("SideA", "SideB"), ("X1", "Y1"), ("X2", "Y2"), ("Z1", "T1"), ("Z2", "T2"), ("E", "F"), ("G", "H"),
+      ("A", "B"), ("C", "D"), ("X3", "Y3"), ("Z3", "T3"), ("e1", "e2"), ("x", "y"), ("msg1", "msg2"), ("_started", "_finished"),
+      ("xy_scalar", "pw_scalar"), ("element_size_bytes", "scalar_size_bytes"), ("Zero", "Base"), ("hexlify", "unhexlify"),
+      ("pt1", "pt2"), ("start", "stop"), ("num", "maxval"), ("Q", "L"), ("pw", "idSymmetric"), ("M_str", "N_str")]
+PAIRS = {}
+for _a, _b in _P:
+    PAIRS[_a] = _b
+    PAIRS[_b] = _a
+
+
 class Src(object):
     def __init__(self, text):
         self.text = text
@@ -98,6 +110,26 @@ def mutants_of(rel, text):
         out.append({"file": rel, "line": node.lineno, "kind": kind, "old": old[:80], "new": new[:80],
                     "where": getattr(fn, "name", "<module>"), "text": t})
 
+    if OPS == "names":
+        # second operator set: confusable identifiers exchanged, attribute stores deleted
+        for n in ast.walk(tree):
+            if isinstance(n, ast.Name) and isinstance(n.ctx, ast.Load) and n.id in PAIRS and not _in_message(parents, n):
+                a, b = s.span(n)
+                add("nameswap", n, a, b, PAIRS[n.id])
+            elif isinstance(n, ast.Attribute) and isinstance(n.ctx, ast.Load) and n.attr in PAIRS and not _in_message(parents, n):
+                b = s.pos(n.end_lineno, n.end_col_offset)
+                a = b - len(n.attr.encode("utf8"))
+                add("attrswap", n, a, b, PAIRS[n.attr])
+            elif isinstance(n, ast.keyword) and n.arg in PAIRS:
+                a = s.pos(n.lineno, n.col_offset)
+                add("kwswap", n, a, a + len(n.arg), PAIRS[n.arg])
+            elif isinstance(n, ast.Assign) and len(n.targets) == 1 and isinstance(n.targets[0], ast.Attribute) \
+                    and isinstance(n.targets[0].value, ast.Name) and n.targets[0].value.id == "self":
+                a, b = s.span(n)
+                add("del-store", n, a, b, "pass")
+            elif isinstance(n, ast.Return) and n.value is not None and isinstance(parents.get(n), ast.FunctionDef) is False:
+                pass
+        return out
     for n in ast.walk(tree):
         if isinstance(n, ast.Compare):
             left = n.left
@@ -316,6 +348,9 @@ def main():
     jobs = int(a[a.index("--jobs") + 1]) if "--jobs" in a else 14
     only = a[a.index("--only") + 1] if "--only" in a else None
     out = a[a.index("--out") + 1] if "--out" in a else os.path.join(VERIF, "MUTATION.jsonl")
+    global OPS
+    if "--ops" in a:
+        OPS = a[a.index("--ops") + 1]
     ms = []
     for rel in FILES:
         p = os.path.join(src, "src", "spake2", rel)
